@@ -246,8 +246,6 @@ DecRec ==
       h == Header(w)
       hx == LET tt == DecTag(w) IN IF tt.ok THEN DecInt(Drop(w, tt.n), 8) ELSE Fail   \* tag + length without payload check
   IN [b |-> w,
-      (* trigger of the known over-read: five continuation bytes that still fit 32 bits, then more data *)
-      overread |-> IF Len(w) >= 6 /\ (\A i \in 1..5 : w[i] >= 128) /\ (w[5] % 128) <= 15 THEN 1 ELSE 0,
       dtag |-> IF t.ok THEN [ok |-> TRUE, tag |-> t.tag, rc |-> t.n, rem |-> Len(w) - t.n] ELSE Fail,
       dint |-> IF i32.ok THEN [ok |-> TRUE, v |-> i32.v, rem |-> Len(w) - i32.n] ELSE Fail,
       di64 |-> IF i64.ok THEN [ok |-> TRUE, v |-> i64.v, rem |-> Len(w) - i64.n] ELSE Fail,
